@@ -73,7 +73,12 @@ func monC01(o *Obs) []finding {
 				msg := fmt.Sprintf("tile matrix %d: output edges %v-%v (polygon %d ring %d) and %v-%v (polygon %d ring %d) cross properly (pixel indices); max multiplicity of the routed chain = %d; crossing pair contains an invented edge: %v",
 					z, e.a, e.b, e.pi, e.ri, f.a, f.b, f.pi, f.ri, l.Facts.MaxMult, inv)
 				if inv && l.Facts.MaxMult >= 3 {
-					if known == nil {
+					// KF-F5 is the behaviour of the pinned kmpDeduplicate; anything else that invents an edge is new
+					if same, note := o.kmpAsPinned(); !same {
+						if other == nil {
+							other = &finding{"crossing", "", msg + "; NOT the known finding KF-F5: " + note, z}
+						}
+					} else if known == nil {
 						known = &finding{"crossing", sigF5, msg, z}
 					}
 				} else if other == nil {
@@ -190,7 +195,9 @@ func monC04(o *Obs) (fs []finding, st map[int]c04stats) {
 		pix := g.Pix
 		sig := ""
 		if l.Facts.MaxMult >= 3 && l.anyInvented() {
-			sig = sigF5
+			if same, _ := o.kmpAsPinned(); same { // see monC01
+				sig = sigF5
+			}
 		}
 		var s c04stats
 		toC := func(k PixKey) P { return g.Centre(k[0], k[1]) }
